@@ -98,7 +98,13 @@ func GenSchemaDoc(c *Ctx, draft7 bool) map[string]any {
 	for i := 0; i < nd; i++ {
 		g.defs = append(g.defs, fmt.Sprintf("d%d", i))
 	}
-	root := g.schema(3, false)
+	var root map[string]any
+	if c.W(3) == 0 {
+		root = g.clusterSchema()
+		root["x-cluster"] = true
+	} else {
+		root = g.schema(3, false)
+	}
 	if draft7 {
 		root["$schema"] = "http://json-schema.org/draft-07/schema#"
 	} else if c.W(3) == 0 {
@@ -114,6 +120,112 @@ func GenSchemaDoc(c *Ctx, draft7 bool) map[string]any {
 		root[g.defsKey()] = defs
 	}
 	return root
+}
+
+// interacting subschemas: small schemas whose effect depends on which sibling ran
+// before them (annotations, required sets, additional/unevaluated properties).
+func (g *schemaGen) cluster() map[string]any {
+	c := g.c
+	k := func() string { return pick(c, propPool) }
+	switch c.W(10) {
+	case 0:
+		return map[string]any{"required": []any{k()}}
+	case 1:
+		if g.draft7 {
+			return map[string]any{"additionalProperties": false, "properties": map[string]any{k(): map[string]any{}}}
+		}
+		return map[string]any{"unevaluatedProperties": false}
+	case 2:
+		if g.draft7 {
+			return map[string]any{"maxProperties": 1 + c.W(3)}
+		}
+		return map[string]any{"unevaluatedProperties": map[string]any{"type": pick(c, typePool)}}
+	case 3:
+		return map[string]any{"properties": map[string]any{k(): map[string]any{"type": pick(c, typePool)}, k(): map[string]any{}}}
+	case 4:
+		return map[string]any{"additionalProperties": false, "properties": map[string]any{k(): map[string]any{}, k(): map[string]any{}}}
+	case 5:
+		return map[string]any{"minProperties": 1 + c.W(3)}
+	case 6:
+		return map[string]any{"patternProperties": map[string]any{pick(c, patternPool): map[string]any{"type": pick(c, typePool)}}}
+	case 7:
+		return map[string]any{"propertyNames": map[string]any{"pattern": pick(c, patternPool)}}
+	case 8:
+		return map[string]any{"properties": map[string]any{k(): false}}
+	default:
+		return map[string]any{}
+	}
+}
+
+// clusterSchema builds an object schema whose map-valued keywords hold
+// interacting entries (the order of evaluation of the entries is Go map order).
+func (g *schemaGen) clusterSchema() map[string]any {
+	c := g.c
+	s := map[string]any{}
+	entries := func(keys []string) map[string]any {
+		m := map[string]any{}
+		for _, k := range keys {
+			m[k] = g.cluster()
+		}
+		return m
+	}
+	for _, kw := range subset(c, []int{0, 1, 2, 3, 4, 5}, 2, 4) {
+		switch kw {
+		case 0:
+			if g.draft7 {
+				s["dependencies"] = entries(subset(c, propPool, 2, 3))
+			} else {
+				s["dependentSchemas"] = entries(subset(c, propPool, 2, 3))
+			}
+		case 1:
+			s["patternProperties"] = entries(subset(c, patternPool, 2, 3))
+		case 2:
+			s["properties"] = entries(subset(c, propPool, 2, 4))
+		case 3:
+			if g.draft7 {
+				s["additionalProperties"] = g.cluster()
+			} else if c.W(2) == 0 {
+				s["unevaluatedProperties"] = false
+			} else {
+				s["unevaluatedProperties"] = g.cluster()
+			}
+		case 4:
+			s["allOf"] = []any{g.cluster(), g.cluster()}
+		case 5:
+			s["anyOf"] = []any{g.cluster(), g.cluster(), g.cluster()}
+		}
+	}
+	return s
+}
+
+// clusterInstance builds an object over the same key pool with object values.
+func clusterInstance(c *Ctx) any {
+	m := map[string]any{}
+	if c.W(2) == 0 {
+		// homogeneous values: "all properties have type T" style subschemas pass
+		t := pick(c, typePool)
+		for _, k := range subset(c, propPool, 1, 5) {
+			if t == "object" {
+				m[k] = map[string]any{}
+			} else if t == "array" {
+				m[k] = []any{}
+			} else {
+				m[k] = valueOfType(c, t)
+			}
+		}
+		return m
+	}
+	for _, k := range subset(c, propPool, 1, 5) {
+		switch c.W(4) {
+		case 0:
+			m[k] = map[string]any{pick(c, propPool): GenValue(c, 0), pick(c, propPool): GenValue(c, 0)}
+		case 1:
+			m[k] = map[string]any{}
+		default:
+			m[k] = GenValue(c, 1)
+		}
+	}
+	return m
 }
 
 // schema generates one subschema. descended says whether an
@@ -376,6 +488,9 @@ func (g *schemaGen) logic(s map[string]any, depth int, descended bool) {
 // the schema document (guided by its top-level keywords), so that about half of
 // the verdicts are "valid".
 func GenInstanceFor(c *Ctx, s map[string]any, depth int) any {
+	if _, ok := s["x-cluster"]; ok && c.W(5) != 0 {
+		return clusterInstance(c)
+	}
 	if depth <= 0 || c.W(4) == 0 {
 		return GenValue(c, 2)
 	}
